@@ -134,6 +134,29 @@ pub fn judge_source_op(
             Ok(Err(e)) => {
                 if !fired {
                     rec.violation("result-differs", site, format!("failed though the fault never fired: {e}"), vplan);
+                } else if f.kind != "interrupted" {
+                    // the same run with a consumer that reads on after the error (as one does for WouldBlock,
+                    // TimedOut, ...): the reader may keep failing, or really resume and deliver everything -
+                    // what it must not do is turn the error into a clean end with other content
+                    seams::set_resume_after_error(true);
+                    let again = op(sched.clone(), vec![f.clone()], false);
+                    seams::set_resume_after_error(false);
+                    rec.count("probe:consumer-reads-on-after-the-error");
+                    if std::env::var("VERIF_DEBUG").is_ok() {
+                        eprintln!("DEBUG first: {e}; read on: {:?}", again.result.as_ref().map(|r| r.as_ref().map(|o| o.len())).map_err(|p| p.msg.clone()));
+                    }
+                    match &again.result {
+                        Err(p) if p.msg.contains(LIVELOCK_MARK) => {}
+                        Err(p) => rec.violation("panic", &norm_loc(&p.loc), format!("{site}: panic when read again after injected {} on source call {:?}: {}", f.kind, f.at_call, p.msg), vplan),
+                        Ok(Ok(o)) if o != ref_out => rec.violation(
+                            "clean-shorter-after-error",
+                            site,
+                            format!("{} on source call {:?} surfaced as an error; the consumer read on and reached a clean end with {} bytes, reference has {}", f.kind, f.at_call, o.len(), ref_out.len()),
+                            vplan,
+                        ),
+                        Ok(Ok(_)) => rec.count("probe:reader-resumed-after-the-error"),
+                        Ok(Err(_)) => {}
+                    }
                 }
             }
         }
